@@ -176,7 +176,9 @@ class Builder:
             if kind == "inst":
                 io = h.Instance(of=tgt)
             elif kind == "array":
-                if inst.get("via") == "mult":
+                if inst.get("via") == "mult_late":
+                    io = h.Instance(of=tgt)  # connected first, multiplied afterwards: `m.arr = n * Cell(a=x, ...)`
+                elif inst.get("via") == "mult":
                     io = inst["n"] * h.Instance(of=tgt)
                 else:
                     io = h.InstanceArray(of=tgt, n=inst["n"])
@@ -187,6 +189,7 @@ class Builder:
             insts[inst["name"]] = io
             self.inst_objs[(k, inst["name"])] = io
         late = bool(m.get("late")) or style == "class"
+        mult_late = {i["name"]: i["n"] for i in m["insts"] if i.get("kind") == "array" and i.get("via") == "mult_late"}
         mod = None
         if style == "proc":
             if m.get("bare"):
@@ -202,7 +205,8 @@ class Builder:
                     setattr(mod, name, o)
             if not late:
                 for name, io in insts.items():
-                    mod.add(io, name=name)
+                    if name not in mult_late:
+                        mod.add(io, name=name)
         ctx = {"objs": objs, "insts": insts, "mod": mod, "k": k}
         if self.mutate:
             self.mutate(self, k, "pre_connect", ctx)
@@ -248,9 +252,12 @@ class Builder:
                     io.connect(pname, conn)
         if self.mutate:
             self.mutate(self, k, "post_connect", ctx)
+        for name, n_ in mult_late.items():
+            insts[name] = n_ * insts[name]
+            self.inst_objs[(k, name)] = insts[name]
         if style == "proc":
-            if late:
-                for name, io in insts.items():
+            for name, io in insts.items():
+                if late or name in mult_late:
                     mod.add(io, name=name)
         else:
             attrs = {}
